@@ -105,10 +105,20 @@ func propPermissions(t *rapid.T) {
 			return nil
 		}}
 	apps := []*kit.App{}
+	appEnvSeen := make([]map[gen.Env]any, 2)
+	appStarts := make([]int, 2)
 	for i := 0; i < 2; i++ {
+		i := i
 		apps = append(apps, &kit.App{Label: fmt.Sprintf("app%d", i), Probe: probe, Spec: gen.ApplicationSpec{
 			Name:  gen.Atom(fmt.Sprintf("permapp%d", i)),
-			Group: []gen.ApplicationMemberSpec{{Name: gen.Atom(fmt.Sprintf("permapp%dm", i)), Factory: kit.Factory(&kit.ActorConfig{Label: "member", Probe: probe, Quiet: true})}},
+			Group: []gen.ApplicationMemberSpec{{Name: gen.Atom(fmt.Sprintf("permapp%dm", i)), Factory: kit.Factory(&kit.ActorConfig{Label: "member", Probe: probe, Quiet: true,
+				OnInit: func(a *kit.Actor, args ...any) error {
+					emu.Lock()
+					appEnvSeen[i] = a.EnvList()
+					appStarts[i]++
+					emu.Unlock()
+					return nil
+				}})}},
 		}})
 	}
 	target, err := netkit.StartNetNode(hub, netkit.NetNodeName("c15t"), "perm", func(o *gen.NodeOptions) {
@@ -126,12 +136,14 @@ func propPermissions(t *rapid.T) {
 	}
 	var peers []gen.Node
 	expose := make([]bool, 3)
+	exposeApp := make([]bool, 3)
 	for i := 0; i < 3; i++ {
 		expose[i] = rapid.Bool().Draw(t, "expose_env")
+		exposeApp[i] = rapid.Bool().Draw(t, "expose_env_app_start")
 		i := i
 		p, err := netkit.StartNetNode(hub, netkit.NetNodeName(fmt.Sprintf("c15p%d", i)), "perm", func(o *gen.NodeOptions) {
 			o.Security.ExposeEnvRemoteSpawn = expose[i]
-			o.Security.ExposeEnvRemoteApplicationStart = expose[i]
+			o.Security.ExposeEnvRemoteApplicationStart = exposeApp[i]
 			o.Env = map[gen.Env]any{"VERIF_SECRET": fmt.Sprintf("secret-of-peer-%d", i)}
 		})
 		if err != nil {
@@ -250,6 +262,16 @@ func propPermissions(t *rapid.T) {
 			if !ok && enabled && flagOK && !everDisabled[[2]int{b2i(isApp), op.name}] && lastEnable[k] == lastEnableStep[[2]int{b2i(isApp), op.name}] {
 				t.Fatalf("peer %d is covered by an Enable for %s %d, no Disable was ever issued, the flags allow it, yet the request failed: %v\nhistory: %v",
 					op.peer, map[bool]string{true: "application", false: "process"}[isApp], op.name, rerr, hist)
+			}
+			if isApp && rerr == nil {
+				// the requester's environment travels only when the requester exposes it for application starts
+				emu.Lock()
+				env := appEnvSeen[op.name]
+				emu.Unlock()
+				_, has := env["VERIF_SECRET"]
+				if has != exposeApp[op.peer] {
+					t.Fatalf("peer %d (env exposure for spawn %v, for application start %v): the member of the remotely started application sees the requester's environment: %v\nhistory: %v", op.peer, expose[op.peer], exposeApp[op.peer], has, hist)
+				}
 			}
 			if isApp && ok {
 				target.ApplicationStop(apps[op.name].Spec.Name)
